@@ -86,10 +86,8 @@ ASSUMPTIONS = [
     'explicit chaining and notes are data of the exception: __cause__ (by identity) and __notes__ '
     'must read at the caller as the raise statement (`raise e from other` / `from None` / plain, '
     'also `raise exc from other` in a re-raising body) left them, and __suppress_context__ must '
-    'still be True after a raise with `from`. __suppress_context__ after a raise WITHOUT `from` '
-    'is not asserted: the tree delivers True there (side effect of copying __cause__ = None), '
-    'which changes the printed traceback only; it is counted under the label '
-    'observed:suppress-context-set-on-plain-raise. __context__ is not compared at all: Python '
+    'be True after a raise with `from` and False after a plain raise (the latter found a leftover '
+    'of repair 1b34a9e, fixed by 5ec59a5). __context__ is not compared at all: Python '
     'itself rewrites it when Gin re-raises from inside its except block (it becomes the '
     'original exception object), so no value is attributable to the raise site',
     'when an intermediate configurable body catches, changes and re-raises the exception, the '
@@ -1031,13 +1029,8 @@ def check_case(case):
     # explicit chaining and notes are data of the exception: what the raise statement (or the
     # re-raising body) set must be what the caller reads; __cause__ by identity
     for field, w, g in zip(('__cause__', '__suppress_context__', '__notes__'), want, got):
-      if field == '__suppress_context__' and not w:
-        # Not asserted for a raise without `from`: the tree under test delivers True there
-        # (the state copy assigns __cause__ = None after __suppress_context__, and assigning
-        # __cause__ sets the flag).  Counted, reported as an observation, see ASSUMPTIONS.
-        if g:
-          labels.add('observed:suppress-context-set-on-plain-raise')
-        continue
+      # (__suppress_context__ after a plain raise used to read True -- a leftover of repair
+      # 1b34a9e, found by this comparison and fixed by 5ec59a5; it is asserted like the others)
       require(g is w if field == '__cause__' else g == w, 'chaining-differs',
               lambda: f'{where}: {field} was set to {short(w)} where the exception was raised, '
                       f'the caught object reads {short(g)}\n{describe()}')
